@@ -28,6 +28,19 @@ def run_one(spec, ops, mo_steps, res: Result):
         if st['err'] and cur != prev: probs.append(f'{op["k"]} raised {st["err"]} but changed the observable state')
         if op['k'] == 'add_asset' and not st['err'] and op['id'] is not None and im.assets[-1].id != op['id']:
             probs.append('explicitly requested asset id not honoured')
+        if op['k'] == 'lookup' and not st['err'] and not probs:
+            # lookups answer from what is in the model now: the live asset with that id / name, by identity, or nothing
+            m = im.m
+            for i_ in op['ids']:
+                want = [a for a in m.assets if int(a.id) == i_]
+                got = m.get_asset_by_id(i_)
+                if (got is None) != (not want) or (want and got is not want[0]):
+                    probs.append('lookup by id does not return the live asset with that id'); break
+            for n_ in op['names']:
+                want = [a for a in m.assets if str(a.name) == n_]
+                got = m.get_asset_by_name(n_)
+                if (got is None) != (not want) or (want and got is not want[0]):
+                    probs.append('lookup by name does not return the live asset with that name'); break
         if probs:
             return ('oracle', i, probs)
         if mo_steps is not None:
